@@ -30,6 +30,7 @@ func runC16(r *vf.Run) {
 	c16Clobber(r)
 	c16NoDescriptors(r)
 	c16WriterLifecycles(r)
+	c16OddInvocations(r)
 	c16FaultSweep(r)
 	c16ReadOnly(r)
 	c16Strace(r)
